@@ -70,6 +70,7 @@ def shard_run(binary, sub, cases, d, tag, extra=(), nshards=None, timeout=3000):
         op_all = os.path.join(d, "%s-out-%d.ndjson" % (tag, i))
         open(op_all, "w").close()
         rounds = 0
+        fault = None
         while todo:
             cp = os.path.join(d, "%s-in-%d-%d.ndjson" % (tag, i, rounds))
             op = os.path.join(d, "%s-out-%d-%d.ndjson" % (tag, i, rounds))
@@ -79,7 +80,15 @@ def shard_run(binary, sub, cases, d, tag, extra=(), nshards=None, timeout=3000):
                 with open(op) as fi, open(op_all, "a") as fo:
                     fo.write(fi.read())
             if "rc" in s:
-                return op_all, s
+                # the process died: everything it wrote before is kept; the case after the last record is
+                # the one that killed it - skip it (it stays without a record) and go on
+                done = sum(1 for _ in open(op)) if os.path.exists(op) else 0
+                fault = s
+                todo = todo[done + 1:]
+                rounds += 1
+                if rounds > 20:
+                    return op_all, fault
+                continue
             if s.get("hung"):
                 done = s["cases"]
                 todo = todo[done:]
@@ -88,7 +97,7 @@ def shard_run(binary, sub, cases, d, tag, extra=(), nshards=None, timeout=3000):
                     return op_all, {"rc": -1, "stderr": "more than 20 hanging cases in one shard", "stdout": ""}
                 continue
             break
-        return op_all, None
+        return op_all, fault
     recs, faults = {}, []
     with cf.ThreadPoolExecutor(n) as ex:
         for op, fault in ex.map(work, range(n)):
